@@ -758,4 +758,237 @@ theorem decodeBytes_of_decode (bs : Bytes) (d : PData) (h : decode bs = some d) 
     exact ⟨r, by rw [e]; exact decodeBytes_refines i d r hw h⟩
   · simp at h
 
+/-! ## what the decoder can produce: valid constructor tags, `any_constructor` in normal form -/
+
+/-- inside the quantifier of the order theorems and a fixed point of `normAny` -/
+def Good (d : PData) : Prop := wfTag d = true ∧ normAny d = d
+def GoodL (xs : List PData) : Prop := wfTagList xs = true ∧ normAnyList xs = xs
+def GoodK (xs : List (PData × PData)) : Prop := wfTagKvs xs = true ∧ normAnyKvs xs = xs
+
+theorem goodL_nil : GoodL [] := ⟨rfl, rfl⟩
+theorem goodK_nil : GoodK [] := ⟨rfl, rfl⟩
+theorem goodL_cons {x : PData} {xs : List PData} (hx : Good x) (hxs : GoodL xs) : GoodL (x :: xs) :=
+  ⟨by simp [wfTagList, hx.1, hxs.1], by simp [normAnyList, hx.2, hxs.2]⟩
+theorem goodK_cons {k v : PData} {xs : List (PData × PData)} (hk : Good k) (hv : Good v) (hxs : GoodK xs) :
+    GoodK ((k, v) :: xs) :=
+  ⟨by simp [wfTagKvs, hk.1, hv.1, hxs.1], by simp [normAnyKvs, hk.2, hv.2, hxs.2]⟩
+
+theorem good_constr (t : Nat) (df : Bool) (xs : List PData) (ht : isConstrTag t = true) (hxs : GoodL xs) :
+    Good (.constr t none df xs) := by
+  have h102 : t ≠ 102 := by rw [isConstrTag_iff] at ht; omega
+  have hci : (constrIndex t none).isSome = true := by
+    rw [isConstrTag_iff] at ht
+    unfold constrIndex
+    rcases ht with h | h
+    · simp [h]
+    · have : ¬ (121 ≤ t ∧ t ≤ 127) := by omega
+      simp [this, h]
+  exact ⟨by simp [wfTag, hci, hxs.1], by simp [normAny, h102, hxs.2]⟩
+
+theorem good_constr102 (a : Nat) (df : Bool) (xs : List PData) (hxs : GoodL xs) :
+    Good (.constr 102 (some a) df xs) :=
+  ⟨by simp [wfTag, constrIndex, hxs.1], by simp [normAny, hxs.2]⟩
+
+theorem good_big (b : BigInt) : Good (.int b) := ⟨rfl, rfl⟩
+theorem good_bytes (b : Bytes) : Good (.bytes b) := ⟨rfl, rfl⟩
+
+/-- all nine decoder layers at one fuel level -/
+structure GoodAt (fuel : Nat) : Prop where
+  p : ∀ bs d r, decP fuel bs = some (d, r) → Good d
+  c : ∀ bs d r, decConstr fuel bs = some (d, r) → Good d
+  m : ∀ bs df xs r, decMaybeIndef fuel bs = some ((df, xs), r) → GoodL xs
+  v : ∀ bs xs r, decVec fuel bs = some (xs, r) → GoodL xs
+  k : ∀ bs xs r, decKvs fuel bs = some (xs, r) → GoodK xs
+  n : ∀ n bs xs r, decN fuel n bs = some (xs, r) → GoodL xs
+  b : ∀ bs xs r, decBreak fuel bs = some (xs, r) → GoodL xs
+  pn : ∀ n bs xs r, decPairsN fuel n bs = some (xs, r) → GoodK xs
+  pb : ∀ bs xs r, decPairsBreak fuel bs = some (xs, r) → GoodK xs
+
+theorem goodAt_zero : GoodAt 0 where
+  p := by intro bs d r h; simp [decP] at h
+  c := by intro bs d r h; simp [decConstr] at h
+  m := by intro bs df xs r h; simp [decMaybeIndef] at h
+  v := by intro bs xs r h; simp [decVec] at h
+  k := by intro bs xs r h; simp [decKvs] at h
+  n := by
+    intro n bs xs r h
+    cases n with
+    | zero => simp [decN] at h; rw [h.1]; exact goodL_nil
+    | succ n => simp [decN] at h
+  b := by intro bs xs r h; simp [decBreak] at h
+  pn := by
+    intro n bs xs r h
+    cases n with
+    | zero => simp [decPairsN] at h; rw [h.1]; exact goodK_nil
+    | succ n => simp [decPairsN] at h
+  pb := by intro bs xs r h; simp [decPairsBreak] at h
+
+theorem goodAt_succ (f : Nat) (ih : GoodAt f) : GoodAt (f + 1) where
+  p := by
+    intro bs d r h
+    simp only [decP] at h
+    split at h
+    · split at h
+      · simp at h
+      · rename_i t _ _
+        split at h
+        · simp only [Option.map_eq_some_iff] at h
+          obtain ⟨⟨b, r'⟩, _, e⟩ := h
+          simp only [Prod.mk.injEq] at e; rw [← e.1]; exact good_big b
+        · split at h
+          · exact ih.c _ _ _ h
+          · simp at h
+    · simp only [Option.map_eq_some_iff] at h
+      obtain ⟨⟨b, r'⟩, _, e⟩ := h
+      simp only [Prod.mk.injEq] at e; rw [← e.1]; exact good_big b
+    · simp only [Option.map_eq_some_iff] at h
+      obtain ⟨⟨kvs, r'⟩, hk, e⟩ := h
+      simp only [Prod.mk.injEq] at e; rw [← e.1]
+      have := ih.k _ _ _ hk
+      exact ⟨by simp [wfTag, this.1], by simp [normAny, this.2]⟩
+    · simp only [Option.map_eq_some_iff] at h
+      obtain ⟨⟨kvs, r'⟩, hk, e⟩ := h
+      simp only [Prod.mk.injEq] at e; rw [← e.1]
+      have := ih.k _ _ _ hk
+      exact ⟨by simp [wfTag, this.1], by simp [normAny, this.2]⟩
+    · simp only [Option.map_eq_some_iff] at h
+      obtain ⟨⟨b, r'⟩, _, e⟩ := h
+      simp only [Prod.mk.injEq] at e; rw [← e.1]; exact good_bytes b
+    · simp only [Option.map_eq_some_iff] at h
+      obtain ⟨⟨b, r'⟩, _, e⟩ := h
+      simp only [Prod.mk.injEq] at e; rw [← e.1]; exact good_bytes b
+    · simp only [Option.map_eq_some_iff] at h
+      obtain ⟨⟨xs, r'⟩, hv, e⟩ := h
+      simp only [Prod.mk.injEq] at e; rw [← e.1]
+      have := ih.v _ _ _ hv
+      exact ⟨by simp [wfTag, this.1], by simp [normAny, this.2]⟩
+    · simp only [Option.map_eq_some_iff] at h
+      obtain ⟨⟨xs, r'⟩, hv, e⟩ := h
+      simp only [Prod.mk.injEq] at e; rw [← e.1]
+      have := ih.v _ _ _ hv
+      exact ⟨by simp [wfTag, this.1], by simp [normAny, this.2]⟩
+    · simp at h
+  c := by
+    intro bs d r h
+    simp only [decConstr] at h
+    split at h
+    · simp at h
+    · rename_i t r0 _
+      split at h
+      · rename_i hc
+        simp only [Option.map_eq_some_iff] at h
+        obtain ⟨⟨⟨df, xs⟩, r'⟩, hm, e⟩ := h
+        simp only [Prod.mk.injEq] at e; rw [← e.1]
+        exact good_constr t df xs hc (ih.m _ _ _ _ hm)
+      · split at h
+        · split at h
+          · simp at h
+          · split at h
+            · simp at h
+            · simp only [Option.map_eq_some_iff] at h
+              obtain ⟨⟨⟨df, xs⟩, r'⟩, hm, e⟩ := h
+              simp only [Prod.mk.injEq] at e; rw [← e.1]
+              exact good_constr102 _ df xs (ih.m _ _ _ _ hm)
+        · simp at h
+  m := by
+    intro bs df xs r h
+    simp only [decMaybeIndef] at h
+    split at h
+    · simp only [Option.map_eq_some_iff] at h
+      obtain ⟨⟨ys, r'⟩, hv, e⟩ := h
+      simp only [Prod.mk.injEq] at e; rw [← e.1.2]; exact ih.v _ _ _ hv
+    · simp only [Option.map_eq_some_iff] at h
+      obtain ⟨⟨ys, r'⟩, hv, e⟩ := h
+      simp only [Prod.mk.injEq] at e; rw [← e.1.2]; exact ih.v _ _ _ hv
+    · simp at h
+  v := by
+    intro bs xs r h
+    simp only [decVec] at h
+    split at h
+    · simp at h
+    · exact ih.n _ _ _ _ h
+    · exact ih.b _ _ _ h
+  k := by
+    intro bs xs r h
+    simp only [decKvs] at h
+    split at h
+    · simp at h
+    · exact ih.pn _ _ _ _ h
+    · exact ih.pb _ _ _ h
+  n := by
+    intro n bs xs r h
+    cases n with
+    | zero => simp [decN] at h; rw [h.1]; exact goodL_nil
+    | succ n =>
+      simp only [decN] at h
+      split at h
+      · simp at h
+      · rename_i x r1 hx
+        split at h
+        · simp at h
+        · rename_i ys r2 hys
+          simp only [Option.some.injEq, Prod.mk.injEq] at h; rw [← h.1]
+          exact goodL_cons (ih.p _ _ _ hx) (ih.n _ _ _ _ hys)
+  b := by
+    intro bs xs r h
+    cases bs with
+    | nil => simp [decBreak] at h
+    | cons b0 rest =>
+      simp only [decBreak] at h
+      split at h
+      · simp only [Option.some.injEq, Prod.mk.injEq] at h; rw [← h.1]; exact goodL_nil
+      · split at h
+        · simp at h
+        · rename_i x r1 hx
+          split at h
+          · simp at h
+          · rename_i ys r2 hys
+            simp only [Option.some.injEq, Prod.mk.injEq] at h; rw [← h.1]
+            exact goodL_cons (ih.p _ _ _ hx) (ih.b _ _ _ hys)
+  pn := by
+    intro n bs xs r h
+    cases n with
+    | zero => simp [decPairsN] at h; rw [h.1]; exact goodK_nil
+    | succ n =>
+      simp only [decPairsN] at h
+      split at h
+      · simp at h
+      · rename_i k r1 hk
+        split at h
+        · simp at h
+        · rename_i v r2 hv
+          split at h
+          · simp at h
+          · rename_i ys r3 hys
+            simp only [Option.some.injEq, Prod.mk.injEq] at h; rw [← h.1]
+            exact goodK_cons (ih.p _ _ _ hk) (ih.p _ _ _ hv) (ih.pn _ _ _ _ hys)
+  pb := by
+    intro bs xs r h
+    cases bs with
+    | nil => simp [decPairsBreak] at h
+    | cons b0 rest =>
+      simp only [decPairsBreak] at h
+      split at h
+      · simp only [Option.some.injEq, Prod.mk.injEq] at h; rw [← h.1]; exact goodK_nil
+      · split at h
+        · simp at h
+        · rename_i k r1 hk
+          split at h
+          · simp at h
+          · rename_i v r2 hv
+            split at h
+            · simp at h
+            · rename_i ys r3 hys
+              simp only [Option.some.injEq, Prod.mk.injEq] at h; rw [← h.1]
+              exact goodK_cons (ih.p _ _ _ hk) (ih.p _ _ _ hv) (ih.pb _ _ _ hys)
+
+theorem goodAt : ∀ fuel, GoodAt fuel
+  | 0 => goodAt_zero
+  | f + 1 => goodAt_succ f (goodAt f)
+
+/-- whatever the byte-level decoder returns, on any input, has valid constructor tags (so the
+    comparison cannot panic on it) and is in `any_constructor` normal form -/
+theorem decodeBytes_good (bs : Bytes) (d : PData) (r : Bytes) (h : decodeBytes bs = some (d, r)) :
+    wfTag d = true ∧ normAny d = d := (goodAt _).p bs d r h
+
 end PallasVerif.PlutusData.Dec
